@@ -85,20 +85,6 @@ Proof.
 Qed.
 
 (* ------------------------------------------------------------------ the temporary registers *)
-Lemma runs_push_tmps hs : forall ts rs,
-  runs (push_tmps hs) (mk_state ts rs) (seq (length rs) (length hs)) (mk_state ts (rs ++ map Some hs)).
-Proof.
-  induction hs as [|h r IH]; intros ts rs; cbn [push_tmps length seq map].
-  - rewrite app_nil_r. rdone.
-  - rbind; [apply runs_push_tmp|]. rbind; [apply IH|]. rewrite app_length. cbn [length]. rewrite Nat.add_1_r.
-    eapply runs_eq; [rdone|reflexivity|]. now rewrite <- app_assoc.
-Qed.
-Lemma nth_error_map_seq {A} (f : nat -> A) n : forall a j, j < n -> nth_error (map f (seq a n)) j = Some (f (a + j)).
-Proof.
-  induction n as [|n IH]; intros a j H; [lia|]. destruct j as [|j]; cbn [seq map nth_error].
-  - now rewrite Nat.add_0_r.
-  - rewrite IH by lia. f_equal. f_equal. lia.
-Qed.
 Lemma nth_error_rev_seq n : forall base m cr, nth_error (rev (seq base n)) m = Some cr -> m < n /\ cr = base + (n - 1 - m).
 Proof.
   induction n as [|n IH]; intros base m cr H; [destruct m; discriminate|].
